@@ -28,7 +28,8 @@
 EXTENDS Determinism, TraceIO
 
 CONSTANTS Devs,          \* set of enabled deviation names
-          RequireHook    \* TRUE iff the tree under test contains the kmeans.par hook
+          RequireHook,   \* TRUE iff the tree under test contains the kmeans.par hook
+          RequireVal     \* TRUE iff it also reports the values of the inertia reductions (hook v2)
 
 VARIABLES c, e,          \* case and event cursor
           ref,           \* the inferred result of the configuration (NoRef until the first run)
@@ -59,24 +60,30 @@ Planned ==
 ParSites == 1..3      \* memberships, min_dists, memberships_dists
 RedSites == 4..5      \* centroids, centroids_incr
 SumSites == 6..10     \* fit, fit_with, fit_with_init, plusplus, cluster_count
+ValSites == 6..7      \* fit, fit_with: the inertia as stored, next to the sequential fold of the distances
 MaxTid   == 127
 
-H0 == [st |-> SchedInit0, site |-> 0, last |-> [t \in 1..(MaxTid + 1) |-> -1], tids |-> {}, bad |-> 0]
+H0 == [st |-> SchedInit0, site |-> 0, nval |-> 0, sums |-> {}, last |-> [t \in 1..(MaxTid + 1) |-> -1], tids |-> {}, bad |-> 0]
 
 HookStep(h, ev, q) ==
   IF h.bad # 0 THEN h
   ELSE
   LET code == ev[1]  site == ev[2]  tid == ev[3]  seq == ev[4]  arg == ev[5]
-      st2  == SchedStep(h.st, code, tid, arg, "trace")
-      siteOk == IF code = CBegin THEN site \in ParSites
-                ELSE IF code = CRedBegin THEN site \in RedSites
+      \* a value event carries two bit patterns (hex strings): what the code used / the sequential fold
+      arg2 == IF code = CVal THEN (IF Len(ev) >= 7 /\ ev[6] = ev[7] THEN 1 ELSE 0) ELSE arg
+      st2  == SchedStep(h.st, code, tid, arg2, "trace")
+      siteOk == IF code \in {CBegin, CBeginC} THEN site \in ParSites
+                ELSE IF code \in {CRedBegin, CRedBeginC} THEN site \in RedSites
                 ELSE IF code = CSum THEN site \in SumSites
+                ELSE IF code = CVal THEN site \in ValSites
                 ELSE site = h.site
       logOk == tid \in 0..MaxTid /\ seq > h.last[tid + 1]
   IN IF ~logOk \/ ~siteOk \/ st2 = Bad
        THEN [h EXCEPT !.bad = q]
        ELSE [st |-> st2,
-             site |-> IF code \in {CBegin, CRedBegin} THEN site ELSE h.site,
+             site |-> IF code \in {CBegin, CRedBegin, CBeginC, CRedBeginC} THEN site ELSE h.site,
+             nval |-> h.nval + (IF code = CVal THEN 1 ELSE 0),
+             sums |-> IF code = CSum THEN h.sums \cup {site} ELSE h.sums,
              last |-> [h.last EXCEPT ![tid + 1] = seq],
              tids |-> h.tids \cup {tid},
              bad |-> 0]
@@ -92,6 +99,11 @@ HookOk(ev) ==
   /\ h.st.phase \in {"idle", "joined"}                       \* no loop left open
   /\ ev.thr > 0 => Cardinality(h.tids) <= ev.thr              \* work stays inside the installed pool
   /\ (In.hook /\ RequireHook) => Len(ev.par) > 0              \* the instrumented loops really ran
+  \* every hooked fit reports its reductions: batch k-means the inertia sum and the member count,
+  \* mini-batch k-means the inertia sum of the batch
+  /\ (In.hook /\ RequireHook /\ In.est = "kmeans") => {6, 10} \subseteq h.sums
+  /\ (In.hook /\ RequireHook /\ In.est = "kmeans_incr") => 7 \in h.sums
+  /\ (In.hook /\ RequireVal /\ In.est \in {"kmeans", "kmeans_incr"}) => h.nval > 0   \* every fit reports its inertia
   /\ ~In.hook => Len(ev.par) = 0
 
 -----------------------------------------------------------------------------
@@ -160,7 +172,10 @@ Why ==
      LET h == HookResult(Ev) IN
      "event " \o ToString(e) \o " (" \o EnvStr(Ev) \o ") schedule model rejects hook event #" \o ToString(h.bad)
        \o (IF h.bad # 0 THEN " code " \o ToString(Ev.par[h.bad][1]) \o " site " \o ToString(Ev.par[h.bad][2]) \o " tid "
-              \o ToString(Ev.par[h.bad][3]) \o " arg " \o ToString(Ev.par[h.bad][5]) ELSE "")
+              \o ToString(Ev.par[h.bad][3]) \o " arg " \o ToString(Ev.par[h.bad][5])
+              \o (IF Ev.par[h.bad][1] = CVal /\ Len(Ev.par[h.bad]) >= 7
+                    THEN " value used " \o Ev.par[h.bad][6] \o " # sequential fold " \o Ev.par[h.bad][7] ELSE "")
+           ELSE " (a required reduction / value event is missing, a loop is left open, or too many threads)")
        \o "; phase " \o h.st.phase \o ", " \o ToString(Cardinality(h.tids)) \o " threads, " \o ToString(Len(Ev.par)) \o " events"
   ELSE IF ref # NoRef /\ Premise(Ev.obs) # Premise(ref.obs) THEN "event " \o ToString(e) \o " premise: input data differ between runs (harness)"
   ELSE IF ref # NoRef THEN
